@@ -33,6 +33,14 @@ def comm_status(mask):
     return w
 
 
+# InSetRF (NFC Port-100 command reference; the repository's own driver transcripts show the same bytes): the command
+# carries <send RF setting, send speed, receive RF setting, receive speed>, per bit rate / technology
+IN_SET_RF = {"212F": (1, 1, 15, 1), "424F": (1, 2, 15, 2), "106A": (2, 3, 15, 3), "212A": (4, 4, 15, 4),
+             "424A": (5, 5, 15, 5), "106B": (3, 7, 15, 7), "212B": (3, 8, 15, 8), "424B": (3, 9, 15, 9)}
+# InSetProtocol items (number: name) that decide whether a frame is understood on the air
+P_ADD_PARITY, P_CHECK_PARITY, P_ADD_SOF, P_CHECK_SOF, P_ADD_EOF, P_CHECK_EOF = 0x04, 0x05, 0x09, 0x0A, 0x0B, 0x0C
+
+
 def frame(payload):
     n = len(payload)
     lo, hi = n & 255, n >> 8
@@ -66,6 +74,12 @@ class SimRcs380(object):
         self.air = None
         self.check_crc = 1
         self.chip_checked_crc = 0
+        # optional remote device in the field that talks ONE bit rate / technology (C13, target variants):
+        # card = dict(send="212B", recv="212B").  InCommRF sends as InSetRF / InSetProtocol configured: a device that
+        # does not understand the frame stays silent (RECEIVE_TIMEOUT_ERROR).
+        self.card = None
+        self.rf = None               # data of the last InSetRF
+        self.proto = {}              # item number -> value, from all InSetProtocol commands
         self.log = []
         self.frames = []
         self.fault = None
@@ -126,11 +140,32 @@ class SimRcs380(object):
             return [ACK, self._frame((code + 2) & 0xFE, rsp)]
         return [ACK, damage(self._frame(code, rsp), f)]
 
+    def card_hears(self):
+        c = self.card
+        want = IN_SET_RF[c["send"]][0:2] + IN_SET_RF[c["recv"]][2:4]
+        if self.rf is None or tuple(self.rf[:4]) != want:
+            return False
+        tech = c["send"][-1]
+        parity = self.proto.get(P_ADD_PARITY, 0) == 1 and self.proto.get(P_CHECK_PARITY, 0) == 1
+        noparity = self.proto.get(P_ADD_PARITY, 0) == 0 and self.proto.get(P_CHECK_PARITY, 0) == 0
+        sofeof = all(self.proto.get(i, 0) == 1 for i in (P_ADD_SOF, P_CHECK_SOF, P_ADD_EOF, P_CHECK_EOF))
+        nosofeof = all(self.proto.get(i, 0) == 0 for i in (P_ADD_SOF, P_CHECK_SOF, P_ADD_EOF, P_CHECK_EOF))
+        if tech == "A":
+            return parity and nosofeof
+        if tech == "B":
+            return noparity and sofeof
+        return noparity and nosofeof
+
     def _default(self, code, data):
+        if code == 0x00:
+            self.rf = bytes(data)
         if code == 0x02:
             for i in range(0, len(data) - 1, 2):
+                self.proto[data[i]] = data[i + 1]
                 if data[i] == 0x02:
                     self.check_crc = data[i + 1]
+        if code == 0x04 and self.card is not None and not self.card_hears():
+            return b"\x80\x00\x00\x00"                                     # RECEIVE_TIMEOUT_ERROR
         if code == 0x04 and self.air is not None:
             from .chip_crc import crc_a_bytes
             air = bytes(self.air)
